@@ -23,6 +23,10 @@ def activate():
     os.environ.setdefault(GUARD, "1")
     if sys.path[0] != PYREX_SRC:
         sys.path.insert(0, PYREX_SRC)
+    import logging
+    logging.getLogger("pyrex").setLevel(logging.CRITICAL)
+    import warnings
+    warnings.simplefilter("ignore")
 
 
 def is_library_frame(filename):
